@@ -142,16 +142,26 @@ def _worker(item):
 
 def plan(run):
     quick = run.tier == 'quick'
-    grids = [(2, 2), (2, 3), (3, 2), (3, 3), (3, 4), (4, 3)]
+    grids = [(2, 2), (2, 3), (3, 2), (3, 3), (2, 4), (4, 2), (3, 4), (4, 3)]
     out = tlc.oracle('Gen_Ingest', {'items': [{'op': 'subsets', 'ni': a, 'nx': b} for a, b in grids]}, key='items')
     run.add_tlc({'distinct': 0, 'generated': out['_tlc']['generated'], 'wall_s': out['_tlc']['wall_s']}, 'Gen_Ingest(subsets)')
     rng = np.random.default_rng(run.seed)
     cases = []
     total = 0
     for (a, b), o in zip(grids, out['items']):
-        subs = o['subsets']
+        recs = o['subsets']
+        subs = [x['cells'] for x in recs]
         total += len(subs)
-        idx = range(len(subs)) if (not quick or len(subs) <= 60) else sorted(rng.choice(len(subs), size=60, replace=False).tolist())
+        # always: the subsets segyio's own inference would take for a regular cube (equal trace count per leading inline ...)
+        risky = [k for k, x in enumerate(recs) if x['confusable']]
+        if quick and len(risky) > 120:
+            ends = [k for k in risky if recs[k]['ends']]
+            risky = sorted(set(ends) | set(rng.choice(risky, size=120, replace=False).tolist()))
+        rest = [k for k in range(len(subs)) if k not in set(risky)]
+        if quick and len(rest) > 40:
+            rest = sorted(rng.choice(rest, size=40, replace=False).tolist())
+        idx = sorted(set(risky) | set(rest))
+        run.extra['segyio_confusable_subsets'] = run.extra.get('segyio_confusable_subsets', 0) + len(risky)
         for k in idx:
             il0 = (-3, 1, 100)[k % 3]
             ils = (1, 2, 3)[(k // 3) % 3]
